@@ -343,8 +343,10 @@ func where(gs []rt.G) []string {
 }
 
 // observe logs a `quiescent` event; false when no fixed point was reached (inconclusive, never a verdict).
-func (w *world) observe() bool {
-	snap, err := rt.Quiesce()
+func (w *world) observe() bool { return w.observeBudget(4000) }
+
+func (w *world) observeBudget(polls int) bool {
+	snap, err := rt.QuiesceBudget(polls)
 	if err != nil {
 		return false
 	}
